@@ -236,6 +236,21 @@ func c04Run(c c04Case, x *vh.Ctx, contain bool) *vh.Failure {
 			return vh.Fail("C04/alloc-blowup-descriptor", "Descriptor.Read of %d bytes (%s) allocated %d bytes (bound %d), output %d bytes", len(data), c.T, used, dlimit, len(res))
 		}
 		ok2 = err2 == nil
+		// the same outputter again after Reset - whatever the walk above left behind (it may have been
+		// rejected half-way): same outcome, same bytes, and an empty input still gives a document
+		first := append([]byte{}, res...)
+		out.Reset()
+		err3 := tg.desc.Read(&out, exact)
+		res3 := out.Done()
+		if (err3 == nil) != (err2 == nil) || (err2 == nil && !bytes.Equal(res3, first)) {
+			return vh.Fail("C04/descriptor-outputter-reuse", "second walk of the same bytes with the same outputter (Reset in between): err %v / %q, first walk err %v / %q", err3, res3, err2, first)
+		}
+		out.Reset()
+		var fresh plenccodec.JSONOutput
+		errE1, errE2 := tg.desc.Read(&out, nil), tg.desc.Read(&fresh, nil)
+		if e1, e2 := out.Done(), fresh.Done(); (errE1 == nil) != (errE2 == nil) || !bytes.Equal(e1, e2) {
+			return vh.Fail("C04/descriptor-outputter-reuse", "walk of empty input with a re-used outputter: err %v / %q, with a new one err %v / %q", errE1, e1, errE2, e2)
+		}
 	}
 	x.LabelIf(err1 == nil, "unmarshal:ok")
 	x.LabelIf(err1 != nil, "unmarshal:error")
